@@ -5,6 +5,7 @@ import (
 	"errors"
 	"fmt"
 	"io"
+	"os"
 	"time"
 
 	"github.com/rs/zerolog"
@@ -60,6 +61,7 @@ type c14Ev struct {
 }
 
 type c14Run struct {
+	plain  bool // the fan-out is reached through plain Write: destinations see no level, filters pass everything
 	ch     *zsim.Choices
 	dsts   []*c14Dst
 	cur    map[int]*c14Ev
@@ -155,8 +157,21 @@ func (c14World) Run(prop string, ch *zsim.Choices, trace bool) *RunResult {
 		} else if ch.Chance(1, 4) {
 			zsim.Probe("sync_wrapped_fanout")
 			lg = zerolog.New(zerolog.SyncWriter(zerolog.MultiLevelWriter(ws...)))
+		} else if ch.Chance(1, 5) {
+			// the fan-out driven through plain Write (behind an adapter that hides WriteLevel,
+			// as behind ConsoleWriter.Out, bufio or the stdlib logger): no levels, no filtering
+			zsim.Probe("fanout_plain_write")
+			r.plain = true
+			lg = zerolog.New(zerolog.LevelWriterAdapter{Writer: zerolog.MultiLevelWriter(ws...)})
 		} else {
 			lg = zerolog.New(zerolog.MultiLevelWriter(ws...))
+		}
+		if !r.single && ch.Chance(1, 2) {
+			// the caller reuses the slice it passed as ws...: the fan-out must have its own list
+			for i := range ws {
+				ws[i] = io.Discard
+			}
+			zsim.Probe("caller_slice_reused")
 		}
 		lg = lg.With().Str("svc", "x").Logger()
 		nTasks := 1 + ch.Weighted(3, 1)
@@ -182,7 +197,10 @@ func (c14World) Run(prop string, ch *zsim.Choices, trace bool) *RunResult {
 						oc = 1 + ch.Intn(2)
 					}
 					ev.outcome = append(ev.outcome, oc)
-					ev.errs = append(ev.errs, fmt.Errorf("error of destination %d on %s", d, ev.id))
+					// distinct per (destination, event), wrapping error values that code likes to
+					// special-case
+					base := []error{errors.New("plain"), os.ErrClosed, io.ErrClosedPipe, io.ErrShortWrite, io.EOF}[ch.Intn(5)]
+					ev.errs = append(ev.errs, fmt.Errorf("error of destination %d on %s: %w", d, ev.id, base))
 				}
 				evs = append(evs, ev)
 				events = append(events, ev)
@@ -232,7 +250,7 @@ func (c14World) Run(prop string, ch *zsim.Choices, trace bool) *RunResult {
 				if !bytes.Equal(rec.b, rec.ev.want) {
 					return viol("C14.fanout", "destination %d received %s for %s, a fault-free logger emits %s (outcomes of this event: %v)", d.idx, clip(rec.b, 160), rec.ev.id, clip(rec.ev.want, 160), rec.ev.outcome)
 				}
-				if d.leveled && (!rec.hasLv || rec.level != rec.ev.level) {
+				if d.leveled && !r.plain && (!rec.hasLv || rec.level != rec.ev.level) {
 					return viol("C14.fanout", "destination %d received %s with level %v (has level: %v), the event's level is %v", d.idx, rec.ev.id, rec.level, rec.hasLv, rec.ev.level)
 				}
 				var n int
@@ -244,7 +262,7 @@ func (c14World) Run(prop string, ch *zsim.Choices, trace bool) *RunResult {
 			}
 			for _, ev := range events {
 				want := 1
-				if d.filter && ev.level < d.min {
+				if d.filter && ev.level < d.min && !r.plain {
 					want = 0
 				}
 				if got[ev] != want {
@@ -256,7 +274,7 @@ func (c14World) Run(prop string, ch *zsim.Choices, trace bool) *RunResult {
 		for _, ev := range events {
 			var want error
 			for i, d := range r.dsts {
-				if d.filter && ev.level < d.min {
+				if d.filter && ev.level < d.min && !r.plain {
 					continue
 				}
 				if ev.outcome[i] == ocErr {
